@@ -184,6 +184,28 @@ func catalogue() []SItem {
 			{Tag: "le", Kind: "edit:cmp-only", Body: "if a <= 0 {\n\t\tpanic(\"neg\")\n\t}\n\treturn a + 1"},
 		}})
 
+	// floating-point comparisons: x >= y is NOT the negation of x < y (NaN), so the branch-swap
+	// normalisation must not apply; arithmetic is not reassociated either
+	for _, c := range []cmp{{">=", "<"}, {">", "<="}} {
+		add(SItem{Group: "F", Par: P("a float64, b float64"), Ret: R("int"),
+			Body: fmt.Sprintf("if a %s b {\n\t\treturn 0\n\t}\n\treturn 1", c.op),
+			Vars: []SVar{
+				{Tag: "neg", Kind: "edit:float-cmp-negation", Body: fmt.Sprintf("if a %s b {\n\t\treturn 1\n\t}\n\treturn 0", c.neg)},
+				{Tag: "arms", Kind: "edit:branch-swap", Body: fmt.Sprintf("if a %s b {\n\t\treturn 1\n\t}\n\treturn 0", c.op)},
+				{Tag: "ren", Kind: "refactor:rename-param", Par: P("used float64, limit float64"), Body: fmt.Sprintf("if used %s limit {\n\t\treturn 0\n\t}\n\treturn 1", c.op)},
+			}})
+	}
+	add(SItem{Group: "F", Par: P("a float64, b float64"), Ret: R("float64"), Body: "return a - b",
+		Vars: []SVar{
+			{Tag: "swap", Kind: "edit:operand-order", Body: "return b - a"},
+			{Tag: "div", Kind: "edit:operator", Body: "return a / b"},
+		}})
+	add(SItem{Group: "F", Par: P("a float64, b float64"), Ret: R("bool"), Body: "return a == b",
+		Vars: []SVar{
+			{Tag: "ne", Kind: "edit:operator", Body: "return a != b"},
+			{Tag: "notlt", Kind: "edit:float-cmp-negation", Body: "return !(a < b) && !(a > b)"},
+		}})
+
 	// ---------------------------------------------------------------- L: counted loops
 	add(SItem{Group: "L", Par: P("n int"), Ret: R("int"), Unwind: 8,
 		Body: "s := 0\n\tfor i := 0; i < n; i++ {\n\t\ts += i\n\t}\n\treturn s",
